@@ -435,6 +435,9 @@ func vp9FrameID(frame []byte) int64 {
 	if frame[0]&0x04 != 0 {
 		off = vp9InterHdrLen
 	}
+	if frame[0]&0x08 != 0 {
+		off = 1 // show_existing_frame
+	}
 	if len(frame) < off {
 		return -1
 	}
